@@ -137,9 +137,10 @@ for (const line of lines) {
       let input = null, handled = null, ctxInfo = null;
       const r = await makeRoutes(c.server, c.svc, async (name, ctx, req) => {
         handled = name; input = req; ctxInfo = { pathParams: ctx && ctx.pathParams, headers: ctx && ctx.headers };
+        if (c.handlerThrowsValidation) { const sm = await load(c.server); throw new sm.mod.ValidationError(structuredClone(c.handlerThrowsValidation)); }
         if (c.handlerThrows) { const e = new Error(c.handlerThrows); throw e; }
         return structuredClone(c.respObj);
-      });
+      }, c.onError ? { onError: (err, req) => new Response(JSON.stringify({ hooked: String(err && err.message || err) }), { status: c.onError.status, headers: c.onError.headers || {} }) } : undefined);
       if (r.error) { emit({ ...base, error: r.error, stage: 'load' }); continue; }
       const rt = route(r.routes, c.req.method, c.req.url);
       if (!rt) { emit({ ...base, status: 404, noRoute: true, routes: r.routes.map((x) => x.method + ' ' + x.path) }); continue; }
